@@ -28,14 +28,13 @@ FullChoices(k) == { c \in { Ch(sz, f, zl, no, lz, lo, lzl, dd, k, ae) :
 FewChoices(k) == { c \in { Ch(sz, f, FALSE, 0, lz, lo, FALSE, dd, k, "none") :
                             sz \in SmallSizes, f \in {{}, {"off"}, {"us", "cs", "off"}}, lz \in BOOLEAN, lo \in {0, 1},
                             dd \in {"none", "sig32"} } : Legal(c) }
-Archives ==
-   IF N = 1 THEN { [prefix |-> p, gaps |-> <<0>>, order |-> <<1>>, dup |-> FALSE, ents |-> <<c>>] : p \in {0, 7}, c \in FullChoices(1) }
-   ELSE { [prefix |-> p, gaps |-> <<0, g>>, order |-> o, dup |-> d, ents |-> <<c1, c2>>] :
-            p \in (IF Full = "tiny" THEN {7} ELSE {0, 7}), g \in (IF Full = "tiny" THEN {2} ELSE {0, 2}),
-            o \in {<<1, 2>>, <<2, 1>>}, d \in BOOLEAN,
-            \* (the AE-x record is a one-entry matter: two-entry archives keep it out so that the full product stays enumerable)
-            c1 \in (IF Full = "full" THEN {c \in FullChoices(1) : c.aes = "none"} ELSE FewChoices(1)), c2 \in FewChoices(2) }
-Init == A \in Archives
+Archives1 == { [prefix |-> p, gaps |-> <<0>>, order |-> <<1>>, dup |-> FALSE, ents |-> <<c>>] : p \in {0, 7}, c \in FullChoices(1) }
+\* (the AE-x record is a one-entry matter: two-entry archives keep it out so that the full product stays enumerable)
+C1Set == IF Full = "full" THEN {c \in FullChoices(1) : c.aes = "none"} ELSE FewChoices(1)
+Init == IF N = 1 THEN A \in Archives1
+        ELSE \E p \in (IF Full = "tiny" THEN {7} ELSE {0, 7}), g \in (IF Full = "tiny" THEN {2} ELSE {0, 2}),
+                o \in {<<1, 2>>, <<2, 1>>}, d \in BOOLEAN, c1 \in C1Set, c2 \in FewChoices(2) :
+                A = [prefix |-> p, gaps |-> <<0, g>>, order |-> o, dup |-> d, ents |-> <<c1, c2>>]
 Next == UNCHANGED A
 Spec == Init /\ [][Next]_A
 
